@@ -1002,7 +1002,7 @@ sf_command	(SNDFILE *sndfile, int command, void *data, int datasize)
 	/* This set of commands do not need the sndfile parameter. */
 	switch (command)
 	{	case SFC_GET_LIB_VERSION :
-			if (data == NULL)
+			if (data == NULL || datasize < 1)
 			{	if (psf)
 					psf->error = SFE_BAD_COMMAND_PARAM ;
 				return 0 ;
@@ -1050,7 +1050,7 @@ sf_command	(SNDFILE *sndfile, int command, void *data, int datasize)
 		} ;
 
 	if (sndfile == NULL && command == SFC_GET_LOG_INFO)
-	{	if (data == NULL)
+	{	if (data == NULL || datasize < 1)
 			return (sf_errno = SFE_BAD_COMMAND_PARAM) ;
 		snprintf (data, datasize, "%s", sf_parselog) ;
 		return strlen (data) ;
@@ -1145,7 +1145,7 @@ sf_command	(SNDFILE *sndfile, int command, void *data, int datasize)
 			return SF_FALSE ;
 
 		case SFC_GET_LOG_INFO :
-			if (data == NULL)
+			if (data == NULL || datasize < 1)
 				return SFE_BAD_COMMAND_PARAM ;
 			snprintf (data, datasize, "%s", psf->parselog.buf) ;
 			return strlen (data) ;
